@@ -18,7 +18,7 @@ THEOREMS = ["Pypika.C12.window_correct", "Pypika.C12.limit_zero_kept", "Pypika.C
             "Pypika.B.limit_last_wins", "Pypika.B.offset_last_wins", "Pypika.B.slice_is_offset_limit", "Pypika.B.limit_offset_commute", "Pypika.B.limit_zero_stored",
             # set-operation builder (Builder.lean stepS / mkSetOp, tied call by call through harness/trace.py)
             "Pypika.B.setop_limit_last_wins", "Pypika.B.setop_offset_last_wins", "Pypika.B.setop_limit_zero_stored",
-            "Pypika.B.run_keeps_limit"]
+            "Pypika.B.run_keeps_limit", "Pypika.B.limit_survives", "Pypika.B.writes_limit_iff"]
 AGREE = ["Pypika.Agree.pagination", "Pypika.Agree.setop_pagination", "Pypika.Agree.writes_agree"]
 TRUSTED = [
     "Spec: pagination grammars of the three families (LIMIT n [OFFSET m]; [OFFSET m ROWS] [FETCH NEXT n ROWS ONLY]; "
